@@ -59,7 +59,8 @@ func getRequestHeaderValue(r *http.Request, name string) *value.String {
 	name, key, _ = strings.Cut(name, ":")
 	v := r.Header.Get(name)
 	if v == "" {
-		return &value.String{IsNotSet: !r.IsAssigned(name)}
+		// An empty header has no sub-field at all
+		return &value.String{IsNotSet: key != "" || !r.IsAssigned(name)}
 	}
 
 	if key == "" {
@@ -84,7 +85,8 @@ func getResponseHeaderValue(r *http.Response, name string) *value.String {
 	name, key, _ = strings.Cut(name, ":")
 	v := r.Header.Get(name)
 	if v == "" {
-		return &value.String{IsNotSet: !r.IsAssigned(name)}
+		// An empty header has no sub-field at all
+		return &value.String{IsNotSet: key != "" || !r.IsAssigned(name)}
 	}
 
 	if key == "" {
@@ -113,8 +115,11 @@ func setRequestHeaderValue(r *http.Request, name string, val value.Value) {
 	}
 
 	if strings.EqualFold(name, "cookie") {
-		c := http.CreateCookie(key, val.String())
-		r.AddCookie(c)
+		// The value may not be representable as a cookie (e.g. it contains quotes or
+		// commas), then no cookie could be created and there is nothing to add
+		if c := http.CreateCookie(key, val.String()); c != nil {
+			r.AddCookie(c)
+		}
 		return
 	}
 
